@@ -2,7 +2,8 @@
 
 proof  : lean/GomlVerif/Props/C09.lean (anf_preserves & corollaries over Model/Anf.lean and Sem)
 tie    : the model's anf on the REAL Lift dump == the REAL ANF (fresh Gensym and pipeline), exactly
-oracle : effect-placement programs through the real pipeline; every stage dump run under Sem /
+oracle : effect-placement programs through the real pipeline (every hole effectful; one effectful hole among
+         effect-free neighbours of each syntactic class; call-free expressions with one failing division); every stage dump run under Sem /
          Go.Sem under both `go` schedules; stages must agree with each other and with the trace the
          generator says the program must have (does not go through the model)."""
 import json, os, re
@@ -251,6 +252,11 @@ def run(ctx):
         kinds[e] = kinds.get(e, 0) + c
         w = p.rsplit(":", 1)[0].rsplit("@", 1)[-1] if "@" in p else "None"
         shapes[w] = shapes.get(w, 0) + c
+    pure_classes = {w[4:]: c for w, c in shapes.items() if w.startswith("Pure")}
+    shapes = {w: c for w, c in shapes.items() if not w.startswith("Pure")}
+    streams = {}
+    for k in runnable:
+        streams[k.split(":", 1)[0]] = streams.get(k.split(":", 1)[0], 0) + 1
     cov = {
         "evaluations": n_eval + n_tie, "distinct_nontrivial": len(distinct),
         "rule": "tie case = one program (82-program corpus, G-prog, effect programs): model anf on its real Lift dump vs the real ANF, exact; "
@@ -267,7 +273,9 @@ def run(ctx):
         "runs_that_fail(panic expected at a definite point)": n_fail_runs,
         "lazy_schedule_runs(programs with go)": n_go_sched,
         "rejected_by_gocheck(owned by C02, Go stage skipped)": n_invalid_go, "fuel_exhausted(skipped)": n_fuel,
-        "effect_kinds_placed": kinds, "operand_wrapper_shapes_placed(nearly trivial shape around the effectful core)": shapes, "distinct_positions": len({p.rsplit(':', 1)[0] for p in positions}),
+        "effect_kinds_placed": kinds, "operand_wrapper_shapes_placed(nearly trivial shape around the effectful core)": shapes,
+        "effect_free_neighbour_classes_placed(holes WITHOUT an effect, and the operands of a failing division, by syntactic class; streams pure: / mix:)": pure_classes,
+        "effect_programs_by_stream": streams, "distinct_positions": len({p.rsplit(':', 1)[0] for p in positions}),
         "forms": forms, "generator": feats,
         "impl_oracle_failures": len(ctx.violations), "model_diffs": n_tie - n_tie_eq - n_tie_eqt,
     }
